@@ -551,7 +551,7 @@ class Schema(ResolverMap):
 
         cloned._replace_types_and_directives(
             types={
-                t.name: copy.copy(t)
+                t.name: _copy_type(t)
                 for t in self.types.values()
                 if (
                     t not in SPECIFIED_SCALAR_TYPES
@@ -559,7 +559,7 @@ class Schema(ResolverMap):
                 )
             },
             directives={
-                d.name: copy.copy(d)
+                d.name: _copy_with_arguments(d)
                 for d in self.directives.values()
                 if d not in SPECIFIED_DIRECTIVES
             },
@@ -568,6 +568,23 @@ class Schema(ResolverMap):
         cloned.merge_resolvers(self)
 
         return cloned
+
+
+def _copy_with_arguments(value: Any) -> Any:
+    # Fields and directives own their arguments: copy them as well so that
+    # fixing type references on the copy never touches the original.
+    copied = copy.copy(value)
+    copied.arguments = [copy.copy(a) for a in value.arguments]
+    return copied
+
+
+def _copy_type(type_: NamedType) -> NamedType:
+    copied = copy.copy(type_)
+    if isinstance(copied, (ObjectType, InterfaceType)):
+        copied.fields = [_copy_with_arguments(f) for f in type_.fields]
+    elif isinstance(copied, InputObjectType):
+        copied.fields = [copy.copy(f) for f in type_.fields]
+    return copied
 
 
 def _build_directive_map(maybe_directives: List[Any]) -> Dict[str, Directive]:
